@@ -187,7 +187,7 @@ def history(draw, maxP=6, maxT=12, P=None, T=None):
         ))
     perm = [draw(st.permutations(list(range(P)))) for _ in range(T)]
     p = dict(ddpm_sea=draw(st.sampled_from([30.0, 10.0, 60.0])), ddpm_swell=draw(st.sampled_from([20.0, 5.0, 45.0])), scaling=draw(st.sampled_from([1.0, 0.5, 2.0])), dist=draw(st.sampled_from([1e6, 2e5, 5e6])))
-    return dict(P=P, T=T, systems=systems, perm=perm, p=p, dt=draw(st.sampled_from([3600, 1800, 10800])), wspd=[draw(st.sampled_from([0.5, 5.0, 12.0, 25.0])) for _ in range(T)])
+    return dict(P=P, T=T, systems=systems, perm=perm, p=p, dt=draw(st.sampled_from([3600, 1800, 10800])), wspd=[draw(st.sampled_from([0.5, 5.0, 12.0, 25.0, 5.0, 12.0, 0.0, float("nan")])) for _ in range(T)])  # calm (0 m/s) and missing wind: no wind-sea threshold is defined then, so nothing may be carried from slot 0
 
 
 def build_history(h):
